@@ -12,10 +12,16 @@ Definition check_call (c : call) : bool :=
   && forallb (fun s => s <=? Z.lcm 8 (c_div c)) (c_sizes c)     (* children's residue sets are bounded by the divisor reaching them *)
   && (match c_kind c with KCat => (Nat.leb (length (c_sizes c)) 2) && (c_local c <=? c_div c * c_div c) | _ => true end).
 
-Record variant := { v_cap : Z; v_total : Z; v_expands : Z; v_calls : list call }.
+Record variant := { v_cap : Z; v_total : Z; v_expands : Z; v_queried : list Z; v_calls : list call }.
+
+(* every divisor that reaches any operator is a queried divisor or its lcm with the byte (alignments are 1 or 8): no query
+   is ever answered through a larger modulus than its own *)
+Definition divisor_ok (queried : list Z) (c : call) : bool :=
+  existsb (fun q => (c_div c =? q) || (c_div c =? Z.lcm 8 q)) queried.
 
 Definition check_variant (v : variant) : bool :=
-  (v_expands v =? 0) && forallb check_call (v_calls v) && (v_total v =? zsum (map c_local (v_calls v))).
+  (v_expands v =? 0) && forallb check_call (v_calls v) && forallb (divisor_ok (v_queried v)) (v_calls v)
+  && (v_total v =? zsum (map c_local (v_calls v))).
 
 Definition case := list variant.
 Definition check_case (c : case) : bool := forallb check_variant c.
